@@ -55,6 +55,8 @@ pub struct NHistory {
     sealed_by: HashMap<Vec<u8>, (u64, Option<Vec<u8>>)>, // codec suite: datagram -> (protocol id, key) it was sealed with
     challenge_nonces: HashMap<u64, Vec<u8>>,             // challenge token sequence -> sealed challenge token seen with it
     max_accepted: HashMap<(u8, u64), u64>, // (direction, client k) -> highest sequence accepted in the current session
+    token_instances: HashMap<u64, u32>,  // token index -> number of client instances built from it
+    crafted_seen: bool,                  // some datagram of this history was sealed by the harness with a token owner's keys
     owner_crafted: bool,                 // the datagram being delivered was sealed by the owner of the token (op 155)
     delivered_to_client: HashMap<u64, HashSet<Vec<u8>>>,
 }
@@ -133,6 +135,8 @@ impl NHistory {
             sealed_by: HashMap::new(),
             challenge_nonces: HashMap::new(),
             max_accepted: HashMap::new(),
+            token_instances: HashMap::new(),
+            crafted_seen: false,
             owner_crafted: false,
             delivered_to_client: HashMap::new(),
         }
@@ -383,6 +387,16 @@ impl NHistory {
                     }
                 }
                 _ => self.violate("C19", format!("unexpected result {} for a datagram from an unconnected address", obs.to_text())),
+            }
+        }
+        // C16/C20: the server decodes what the client encoded - a disconnect packet of the client whose session lives at this
+        // address, delivered unchanged for the first time, ends that session (it carries the newest sequence number
+        // of its sender, so replay protection cannot object)
+        if let (Some((k, _)), true, true, false, false) = (genuine_of, opens && connected_before, prefix_info(&data).map(|x| x.0 == 6).unwrap_or(false), replayed, self.crafted_seen) {
+            let sole = self.client_token.get(&k).map(|t| self.token_instances.get(t).copied() == Some(1)).unwrap_or(false);
+            if sole && !self.client_token_reused(k) && kind != 4 {
+                self.violate("C16", format!("the disconnect packet of client {} ({} bytes, as its encoder wrote it) was not decoded by the server: result {}", k, data.len(), obs.to_text().chars().take(40).collect::<String>()));
+                self.violate("C20", format!("the disconnect packet of client {} ({} bytes) reached the server unchanged and the session stayed: the server learns of the disconnect only by timeout", k, data.len()));
             }
         }
         // a connection response that the server has acted on before never establishes a session again: the challenge it
@@ -676,6 +690,7 @@ impl NHistory {
                 let built = obs.as_l().and_then(|o| o.first()).and_then(|t| t.as_u64()) == Some(0);
                 if let (true, Some(k), Some(tk)) = (built, u(1), if code == 128 { u(2) } else { u(3) }) {
                     self.client_token.insert(k, tk);
+                    *self.token_instances.entry(tk).or_insert(0) += 1;
                     self.out_c.remove(&k);
                     self.delivered_to_client.remove(&k);
                 }
@@ -687,7 +702,19 @@ impl NHistory {
                 let obs = self.emit(op);
                 if let (Some([Tree::N(0), Tree::B(bytes)]), Some(protocol)) = (obs.as_l(), u(2)) {
                     let key = v.get(4).and_then(|t| t.as_l()).and_then(|o| o.get(1)).and_then(|t| t.as_b()).map(|x| x.to_vec());
-                    self.sealed_by.insert(bytes.clone(), (protocol, key));
+                    let bytes = bytes.clone();
+                    self.sealed_by.insert(bytes.clone(), (protocol, key.clone()));
+                    // C16: what Packet::encode wrote decodes, under the same key and protocol id, to the same packet and
+                    // sequence number (a connection request carries no sequence number; 18 bytes is the shortest datagram
+                    // decode looks at)
+                    if let (Some(key), Some(pt), Some(seq), true) = (key, v.get(1).cloned(), u(3), bytes.len() >= 18) {
+                        let back = self.emit(&l(vec![n(120u8), b(&bytes), n(protocol), l(vec![n(1u8), b(&key)])]));
+                        let kind = pt.as_l().and_then(|o| o.first()).and_then(|t| t.as_u64()).unwrap_or(9);
+                        let want = l(vec![n(0u8), l(vec![n(if kind == 0 { 0 } else { seq }), pt])]);
+                        if back != want && !self.res.panicked {
+                            self.violate("C16", format!("a packet of kind {} encoded with sequence number {} does not decode to itself: {}", kind, seq, back.to_text().chars().take(100).collect::<String>()));
+                        }
+                    }
                 }
             }
             120 => {
@@ -1037,6 +1064,7 @@ impl NHistory {
                 // user data the challenge was issued for
                 let matches_pending = self.world.server.as_ref().map(|s| s.verif_pending().iter().any(|p| p.addr == from && p.client_id == tc.id && p.user_data.to_vec() == tc.user)).unwrap_or(false);
                 self.owner_crafted = true;
+                self.crafted_seen = true;
                 self.invalid_response = !matches_pending;
                 self.to_server(from, buf, None, !matches_pending);
                 self.invalid_response = false;
@@ -1066,6 +1094,7 @@ impl NHistory {
                 buf.truncate(len);
                 self.feat("garbage_challenge_response");
                 self.owner_crafted = true;
+                self.crafted_seen = true;
                 self.invalid_response = true;
                 self.to_server(from, buf, None, true);
                 self.invalid_response = false;
